@@ -21,6 +21,13 @@ let res_str f = function Ok a -> f a | ValueError -> "ValueError"
 let bool_str b = if b then "1" else "0"
 let strs l = String.concat " " (List.map string_of_pstr l)
 
+let legs_of s = if s = "e" then [] else List.map (fun x -> nat_of_int (int_of_string x)) (String.split_on_char ',' s)
+let morphs_of s = if s = "none" then [] else List.map legs_of (String.split_on_char '/' s)
+let talg_str = function AU -> "u" | ASU -> "su" | ASP -> "sp" | ASO -> "so"
+let cres_str f = function COk a -> f a | ClassErr -> "ClassErr"
+let props_str ((t, nc), size) = Printf.sprintf "%s %d %d" (talg_str t) (int_of_z nc) (int_of_z size)
+let terms_str l = String.concat ";" (List.map (fun ((t, size), m2) -> Printf.sprintf "%s,%d,%d" (talg_str t) (int_of_z size) (int_of_z m2)) l)
+
 let handle (toks : string list) : string =
   match toks with
   | ["sign"; p; q] -> res_str gi_str (sign_code (pstr_of_string p) (pstr_of_string q))
@@ -39,6 +46,18 @@ let handle (toks : string list) : string =
   | "closure_card" :: n :: gens ->
       (match closure_card (nat_of_int (int_of_string n)) (List.map pstr_of_string gens) with
        | None -> "None" | Some c -> string_of_int (int_of_nat c))
+  | "lieinv" :: n :: gens ->
+      (match lie_inv (nat_of_int (int_of_string n)) (List.map pstr_of_string gens) with
+       | None -> "None"
+       | Some (c, l) -> String.concat ";" (string_of_int (int_of_nat c) ::
+           List.map (fun ((a, b), d) -> Printf.sprintf "%d,%d,%d" (int_of_nat a) (int_of_nat b) (int_of_nat d)) l))
+  | "components" :: n :: gens ->
+      String.concat ";" (List.map strs (gen_components_strs (nat_of_int (int_of_string n)) (List.map pstr_of_string gens)))
+  | ["algprops"; l] -> cres_str props_str (algprops (legs_of l))
+  | ["algprops_old"; l] -> cres_str props_str (algprops_old (legs_of l))
+  | ["algebra"; ms] -> cres_str terms_str (algebra_terms (morphs_of ms))
+  | ["dladim"; ms] -> cres_str (fun z -> string_of_int (int_of_z z)) (dla_dim (morphs_of ms))
+  | ["dladim_old"; ms] -> cres_str (fun z -> string_of_int (int_of_z z)) (dla_dim_old (morphs_of ms))
   | _ -> "ERR unknown request"
 
 let () =
